@@ -72,7 +72,8 @@ prop('C08', 'other',
      'zero-time-constant pattern (n<=3, m<=2): z3 decides entry-wise equality of the returned state matrix with '
      'T_D^-1(F_DD - F_DZ F_ZZ^-1 F_ZD), F = fx - fy gy^-1 gx (division-free adjugate form) and that the reported names are the '
      'remaining states; _store_stats counts partition the eigenvalues; calc_pfactor: factors >= 0 and each mode sums to 1 with the '
-     'LAPACK calls stubbed by arbitrary matrices; the report arg-max loop (cut from source) picks a largest factor.',
+     'LAPACK calls stubbed by arbitrary matrices; the report arg-max loop (cut from source) picks a largest factor; real EIG.sweep '
+     'after run() on arbitrary spectra per round: counts, eigenvectors and participation factors stored belong to the stored eigenvalues.',
      'kvxopt replaced by a dense stub in exploration (replays use kvxopt/KLU); LAPACK eigen-solver outside; floats as reals; '
      'gy and the zero-T block non-singular.',
      'path-forking symbolic execution of real matrix code + z3 nonlinear real arithmetic', 'DESIGN.md 3/C08')
